@@ -55,7 +55,8 @@ pub fn catch<R>(f: impl FnOnce() -> R) -> Result<R, PanicInfo> {
 }
 
 impl PanicInfo {
-  pub fn in_repo(&self) -> bool { self.file.starts_with("/repo/") || self.file.starts_with("pie/") || self.file.starts_with("graph/") }
+  /// `/repo/...` (also a scratch copy `<dir>/repo/...` used by the development tools), or a relative path inside the workspace.
+  pub fn in_repo(&self) -> bool { self.file.starts_with("/repo/") || self.file.contains("/repo/pie/") || self.file.contains("/repo/graph/") || self.file.starts_with("pie/") || self.file.starts_with("graph/") }
   pub fn short(&self) -> String {
     let m: String = self.msg.chars().take(160).collect();
     format!("{}:{}: {}", self.file, self.line, m)
